@@ -245,6 +245,33 @@ pub fn check_process(c: &ProcCase) -> CheckResult {
     ok(true, format!("process/{}MiB/{}", c.mib, if c.pass_mode { "pass" } else { "key" }))
 }
 
+/// Data typed (or pasted) at a terminal with no FILE operand: the tool may refuse it, but if it takes it, it must stream it
+/// like any other input - peak resident memory must not grow with the amount typed.
+#[derive(Clone, Debug, Serialize, Deserialize)]
+pub struct TtyInput { pub pass_mode: bool, pub mib: u64 }
+pub fn check_tty_input(c: &TtyInput) -> CheckResult {
+    if !crate::cli::pty_available() || !std::path::Path::new("/usr/bin/time").exists() { return ok(false, "skipped:no-pty-or-time"); }
+    let id = super::c13::ids(); let sb = crate::cli::Sandbox::new();
+    sb.write("keys.txt", crate::cli::keyring_text(&[(&id.alice, true), (&id.bob, true)]).as_bytes());
+    let mut rss = Vec::new();
+    for mib in [1u64, c.mib] {
+        let line = format!("{}\n", "typed text ".repeat(90)); let n = (mib << 20) / line.len() as u64;
+        sb.write("typed", line.repeat(n as usize).as_bytes()); let _ = std::fs::remove_file(sb.path("out.ktl")); let _ = std::fs::remove_file(sb.path("rss.txt"));
+        let tool = crate::cli::kestrel_bin(); let tool = tool.to_string_lossy();
+        let inner = if c.pass_mode { format!("/usr/bin/time -o rss.txt -f MAXRSS_KB=%M '{}' password encrypt --env-pass -o out.ktl", tool) } else { format!("/usr/bin/time -o rss.txt -f MAXRSS_KB=%M '{}' encrypt -t bob -f alice -k keys.txt --env-pass -o out.ktl", tool) };
+        let mut cmd = std::process::Command::new("/usr/bin/timeout"); cmd.args(["120", "/usr/bin/script", "-qec", &inner, "/dev/null"]).env_clear().env("TERM", "dumb").env("SHELL", "/bin/sh").env("KESTREL_PASSWORD", if c.pass_mode { "pw" } else { id.alice.password.as_str() }).current_dir(&sb.dir)
+            .stdin(std::fs::File::open(sb.path("typed")).map_err(|e| e.to_string())?).stdout(std::process::Stdio::null()).stderr(std::process::Stdio::null());
+        let st = cmd.status().map_err(|e| format!("cannot run script(1): {}", e))?;
+        if st.code() == Some(124) { return Err(format!("the tool did not finish within 120 s when {} MiB were typed at its terminal", mib)); }
+        let made = sb.read("out.ktl").map(|f| f.len()).unwrap_or(0);
+        if st.code() != Some(0) || made == 0 { return ok(true, "tty-input/refused"); }
+        let kb = sb.read("rss.txt").and_then(|t| String::from_utf8_lossy(&t).lines().filter_map(|l| l.strip_prefix("MAXRSS_KB=").and_then(|v| v.trim().parse::<u64>().ok())).last()).ok_or("no RSS figure")?;
+        rss.push(kb);
+    }
+    if rss[1] > rss[0] + 6144 { return Err(format!("data typed at the terminal (no FILE operand) is held in memory: peak resident memory {} KB for 1 MiB typed, {} KB for {} MiB", rss[0], rss[1], c.mib)); }
+    ok(true, "tty-input/streamed")
+}
+
 /// How far ahead of its output does the tool read a regular file? Its stdout is a pipe nobody drains, so it blocks
 /// after the pipe buffer is full; /proc/<pid>/fdinfo then tells how much of the input it has consumed.
 #[derive(Clone, Debug, Serialize, Deserialize)]
@@ -288,6 +315,7 @@ pub fn run(ctx: &Ctx) {
       ctx.pbt("buffering_sinks_random", ctx.n(60, 600), || (0usize..40 * CS, any::<bool>(), prop_oneof![Just(8192usize), 1usize..(4 << 20), Just(usize::MAX / 2)], any::<bool>(), any::<u64>()).prop_map(|(size, decrypt, cap, p, seed)| BufCase { size, pass: p && seed % 8 == 0, cap, decrypt, seed }), check_buffered); }
     let pm = if ctx.quick() { 64 } else { 1024 };
     ctx.sse_vec("process_peak_rss", &format!("the binary on a sparse {} MiB file vs a 1 MiB file, both modes: peak RSS (GNU time) must not grow", pm), vec![ProcCase { mib: pm, pass_mode: false }, ProcCase { mib: pm, pass_mode: true }], check_process);
+    ctx.sse_vec("process_terminal_input", "plaintext typed at a (pseudo-)terminal with no FILE operand, 1 MiB vs 12 MiB (thorough 48 MiB), both modes: refused, or streamed with peak RSS independent of the amount", [false, true].map(|pass_mode| TtyInput { pass_mode, mib: if ctx.quick() { 12 } else { 48 } }).to_vec(), check_tty_input);
     ctx.sse_vec("process_read_ahead", "password encrypt / decrypt of an 8 MiB regular file with stdout a pipe nobody drains: input position (procfs) once the tool is blocked", vec![ReadAhead { decrypt: false }, ReadAhead { decrypt: true }], check_read_ahead);
     if !ctx.quick() { ctx.sse_vec("five_gib", "one 5 GiB stream (crosses 2^32 bytes and 65536 chunks)", vec![Case { size: 5 << 30, mode: Mode::Key, seed: 5, read_var: 0 }], check); }
     let b = BASELINE.lock().unwrap(); ctx.put("baseline_peak_256KiB", serde_json::json!(b.iter().map(|(m, e, d)| serde_json::json!({"mode": format!("{:?}", m), "encrypt_peak": e, "decrypt_peak": d})).collect::<Vec<_>>()));
